@@ -46,7 +46,7 @@ def is_list(t):
 
 def elem(t):
     e = t[len("List "):]
-    if e.startswith("(") and e.endswith(")"):
+    if e.startswith("(") and e.endswith(")") and _balanced(e[1:-1]):
         e = e[1:-1]
     return e
 
@@ -56,6 +56,47 @@ def list_of(t):
 
 
 DEFAULTS = {INT: "0", CHAR: "'0'", BOOL: "false"}
+
+
+def prod_parts(t):
+    """components of a product type written `A × B × C` (top level only)"""
+    parts, depth, cur = [], 0, ""
+    i = 0
+    while i < len(t):
+        c = t[i]
+        if c == "(":
+            depth += 1
+        elif c == ")":
+            depth -= 1
+        if depth == 0 and t.startswith(" × ", i):
+            parts.append(cur)
+            cur = ""
+            i += 3
+            continue
+        cur += c
+        i += 1
+    parts.append(cur)
+    out = []
+    for q in parts:
+        q = q.strip()
+        if q.startswith("(") and q.endswith(")") and _balanced(q[1:-1]):
+            q = q[1:-1]
+        out.append(q)
+    return out
+
+
+def _balanced(x):
+    d = 0
+    for c in x:
+        d += c == "("
+        d -= c == ")"
+        if d < 0:
+            return False
+    return d == 0
+
+
+def paren(t):
+    return f"({t})" if " " in t and not (t.startswith("(") and t.endswith(")") and _balanced(t[1:-1])) else t
 
 
 class TranslateError(Exception):
@@ -71,6 +112,8 @@ def char_lit(c):
 
 
 class T:
+    KNOWN = {}  # python name of an already translated function -> (lean name, argument types, result type)
+
     def __init__(self, env, ret, partial=False, attrs=None, local_types=None):
         self.env = dict(env)
         self.ret = ret
@@ -237,6 +280,18 @@ class T:
         if not isinstance(n.func, ast.Name):
             raise TranslateError("call of a non-name")
         f = n.func.id
+        if f in self.KNOWN:
+            lean, ats, rt = self.KNOWN[f]
+            args = [self.e(a) for a in n.args]
+            if [t for _, t in args] != list(ats):
+                raise TranslateError(f"call of {f} with {[t for _, t in args]}")
+            return "(" + lean + " " + " ".join(a for a, _ in args) + ")", rt
+        if f == "zip" and len(n.args) == 2:
+            a, ta = self.e(n.args[0])
+            b, tb = self.e(n.args[1])
+            if is_list(ta) and is_list(tb):
+                return f"(List.zip {a} {b})", list_of(f"{paren(elem(ta))} × {paren(elem(tb))}")
+            raise TranslateError("zip of non-lists")
         if f == "map" and len(n.args) == 2 and isinstance(n.args[0], ast.Name) and n.args[0].id == "str":
             x, tx = self.e(n.args[1])
             if tx == LIST:
@@ -272,24 +327,51 @@ class T:
         raise TranslateError(f"call {f}({', '.join(ts)})")
 
     def comprehension(self, n):
-        if len(n.generators) != 1 or not isinstance(n.generators[0].target, ast.Name):
-            raise TranslateError("comprehension shape")
-        g = n.generators[0]
+        """[elt for t1 in it1 [if c] for t2 in it2 …]: nested generators become flatMap, the last one map; a target may be a
+        name or a tuple of names (`_` allowed) destructuring an element of product type"""
+        return self._gen(n.generators, n.elt)
+
+    def _bind_target(self, target, te, var):
+        """returns (extra environment, lean let-bindings text) for a comprehension target bound to `var : te`"""
+        if isinstance(target, ast.Name):
+            return {target.id: te}, "", target.id
+        if isinstance(target, ast.Tuple) and all(isinstance(x, ast.Name) for x in target.elts):
+            parts = prod_parts(te)
+            if len(parts) != len(target.elts):
+                raise TranslateError("tuple target arity")
+            env, lets = {}, ""
+            for k, (x, t) in enumerate(zip(target.elts, parts)):
+                proj = var + ".2" * k + ("" if k == len(parts) - 1 else ".1")
+                if x.id != "_":
+                    env[x.id] = t
+                    lets += f"let {x.id} : {t} := {proj}; "
+            return env, lets, var
+        raise TranslateError("comprehension target")
+
+    def _gen(self, gens, elt_node, depth=0):
+        g = gens[0]
         it, tit = self.e(g.iter)
         if not is_list(tit):
             raise TranslateError("comprehension over non-list")
-        v = g.target.id
-        sub = self.sub({v: elem(tit)})
+        te = elem(tit)
+        var = g.target.id if isinstance(g.target, ast.Name) else f"p{depth}"
+        if var == "_":
+            var = f"_u{depth}"
+        env, lets, _ = self._bind_target(g.target, te, var)
+        if isinstance(g.target, ast.Name) and g.target.id == "_":
+            env = {}
+        sub = self.sub(env)
         src = it
         for cond in g.ifs:
             c, tc = sub.e(cond)
             if tc != BOOL:
                 raise TranslateError("comprehension filter")
-            src = f"({src}.filter (fun {v} => {c}))"
-        elt, te = sub.e(n.elt)
-        if te not in (INT, CHAR, STR):
-            raise TranslateError("comprehension element")
-        return f"({src}.map (fun {v} => {elt}))", list_of(te)
+            src = f"({src}.filter (fun ({var} : {te}) => {lets}{c}))"
+        if len(gens) == 1:
+            elt, tel = sub.e(elt_node)
+            return f"({src}.map (fun ({var} : {te}) => {lets}{elt}))", list_of(tel)
+        inner, tin = sub._gen(gens[1:], elt_node, depth + 1)
+        return f"({src}.flatMap (fun ({var} : {te}) => {lets}{inner}))", tin
 
     def subscript(self, n):
         a, ta = self.e(n.value)
@@ -502,7 +584,7 @@ def _target_name(t):
     raise TranslateError("assignment target")
 
 
-def translate_function(fn, lean_name, arg_types, ret, partial=False, attrs=None, local_types=None):
+def translate_function(fn, lean_name, arg_types, ret, partial=False, attrs=None, local_types=None, known=None):
     fn = getattr(fn, "__wrapped__", fn)  # functools.lru_cache & co.
     src = textwrap.dedent(inspect.getsource(fn))
     node = ast.parse(src).body[0]
@@ -512,9 +594,10 @@ def translate_function(fn, lean_name, arg_types, ret, partial=False, attrs=None,
     if len(names) != len(arg_types):
         raise TranslateError("arity")
     env = dict(zip(names, arg_types))
+    T.KNOWN = dict(known or {})
     body = T(env, ret, partial, attrs, local_types).block(node.body)
     binders = " ".join(f"({n} : {t})" for n, t in zip(names, arg_types))
-    if attrs or any(OPAQUE in t for t in arg_types):
+    if attrs or any(OPAQUE in t for t in arg_types) or OPAQUE in ret:
         binders = "{α : Type} " + "".join(f"(attr_{k.replace('.', '_')} : α → {t}) " for k, t in (attrs or {}).items()) \
             + binders
     where = f"{inspect.getsourcefile(fn).split('/src/')[-1]}:{fn.__name__}"
